@@ -65,6 +65,7 @@ class State(object):
         self.notes = []
         self.qidx = None
         self.qinfo = None
+        self.entry = None      # function-entry snapshot: what old(...) refers to in loop invariants
         self.ofields = {}      # opaque-object fields: attr -> closure(z3 Obj term) -> Value
         self.epoch = 0
 
@@ -86,6 +87,7 @@ class State(object):
         s.notes = list(self.notes)
         s.qidx = self.qidx
         s.qinfo = self.qinfo
+        s.entry = self.entry
         s.cond_ctx = getattr(self, 'cond_ctx', False)
         s.ofields = dict(self.ofields)
         s.epoch = self.epoch
@@ -1165,6 +1167,9 @@ class Executor(object):
                 if isinstance(a, ast.Starred):
                     if isinstance(v, VSeq) and v.concrete:
                         args.extend(v.items)
+                    elif isinstance(fv, (VOpaque,)) or (isinstance(fv, VFunc) and fv.kind in ('omethod', 'extern')):
+                        v.starred = True        # unknown argument tuple handed to an opaque callee
+                        args.append(v)
                     else:
                         raise Unsupported('*args with symbolic-length sequence')
                 else:
@@ -1498,7 +1503,10 @@ class Executor(object):
             pre_ofields, pre_epoch = dict(s2.ofields), s2.epoch
             if not spec.get('pure'):
                 self.havoc_opaque_fields(s2)
-            res = self.fresh(s2, t, 'r_' + short)
+            if 'make' in spec:
+                res = spec['make'](self, s2, args, kwargs)
+            else:
+                res = self.fresh(s2, t, 'r_' + short)
             ev = Event(short, args, kwargs, res, dict(s2.ghost), lineno, recv=recv)
             ev.key, ev.full = key, name
             ev.pre_ofields, ev.pre_epoch = pre_ofields, pre_epoch
@@ -2095,8 +2103,9 @@ class Executor(object):
                 proto = self.fresh(init, expand_unions(parse_type(ty_))[0], n_ + '_empty')
                 if isinstance(proto, VSeq):
                     init.env[n_] = VSeq(length=z3.IntVal(0), elem=proto.elem, kind=cur.kind)
+        entry_snap = st.entry if (st.entry is not None and st.depth == 0) else snapshot
         for i, inv in enumerate(invs):
-            init.old = snapshot
+            init.old = entry_snap
             self.oblige(st, self.spec_bool(init, inv), '%s.init#%d' % (tag, i), 'loop-init', where, {'clause': inv})
         # ---- havoc
         hv = st.fork()
@@ -2155,7 +2164,7 @@ class Executor(object):
                 sp.env['_seq'] = sq
             sp.env['_y0'] = y0 if y0 is not None else NONE
             sp.env['yielded'] = s.yielded if s.yielded is not None else NONE
-            sp.old = snapshot
+            sp.old = entry_snap
             for inv in invs:
                 s.assume(self.spec_bool(sp, inv))
                 sp.pc = s.pc
@@ -2169,7 +2178,7 @@ class Executor(object):
                 sp.env['_seq'] = sq
             sp.env['_y0'] = y0 if y0 is not None else NONE
             sp.env['yielded'] = s.yielded if s.yielded is not None else NONE
-            sp.old = snapshot
+            sp.old = entry_snap
             for i, inv in enumerate(invs):
                 self.oblige(s, self.spec_bool(sp, inv), '%s.%s#%d' % (tag, kind, i), 'loop-' + kind, where,
                             {'clause': inv})
